@@ -114,9 +114,6 @@ Proof.
   intros H. unfold txn_balanced_b, sum_amounts. rewrite sum_amounts_erase, (paired_sum_zero _ H). reflexivity.
 Qed.
 
-Definition entry_balanced (e : sentry) : Prop :=
-  match e with ETxn _ _ ps => txn_balanced_b ps = true | _ => True end.
-
 Lemma entries_balanced v days seen :
   Forall day_ok days -> Forall entry_balanced (erase_entries v (transcode_entries days seen)).
 Proof.
